@@ -202,12 +202,15 @@ def prefixFor (cfg : Cfg) (side : Panel) (st : St) : Option String :=
 /-- `painted_prefix` of an unchanged line, as `paint_zero_line` hands it down. -/
 def zeroPrefixFor (cfg : Cfg) : Option String := if cfg.keepMarkers then some zeroPrefix else none
 
+/-- The marker column as painted text. -/
+def preItems (cfg : Cfg) : Option String → List Item
+  | some s => gItems cfg s.toList
+  | none => []
+
 /-- `Painter::paint_line` with line-number data: gutter, then (only when the line has a section) the
 marker column, then the painted sections. -/
 def paintLine (cfg : Cfg) (gutter : List Char) (pre : Option String) (secs : List Item) : List Item :=
-  gItems cfg gutter
-    ++ (if secs.isEmpty then [] else match pre with | some s => gItems cfg s.toList | none => [])
-    ++ secs
+  gItems cfg gutter ++ (if secs.isEmpty then [] else preItems cfg pre) ++ secs
 
 /-- One half of a row as the row loop hands it to the panel function. -/
 structure Half where
